@@ -34,7 +34,12 @@ RULE = ('cases = (reader options cEdge/cHeuristic/filter, a well-formed call seq
         'helper prefixes), externals of all four values before/after a defining rule, heuristics of all six modifiers with bias in '
         '{0,+-1,7,+-(2^31-1),-2^31}, priority in {0,1,2^31-1} (separate stream: > 2^31-1), conditions empty/single/negative/compound/repeated, '
         'targets named/unnamed/named twice/named in a later step/absent, edges with sparse, repeated, negative and extreme node numbers, '
-        'unsupported directives for the error side; strings: well-formed predicates, 3-argument form, near misses (arity, modifier, parentheses, '
+        'unsupported directives for the error side; a fixed sweep "trip-long-names" / "trip-long-names-edges": for EVERY target name length in '
+        '60..70, 240..300, 500..560 and 1000 (plain, quoted, nested, tuple names; quoted names with commas / parentheses / escaped quotes) one '
+        'program without and one with edge directives: the named atom gets 1..3 heuristics (all modifiers, extreme bias / priority), optionally a '
+        'second short or long name, heuristic before the name, name in step 1 and heuristic in step 2 - the text `_heuristic(name,mod,bias,prio)` '
+        'crosses the 63/64-byte inline buffer and the 2^8 / 2*2^8 length boundaries of the StringBuilder the converter formats it with; the same '
+        'lengths as direct matcher strings; strings: well-formed predicates, 3-argument form, near misses (arity, modifier, parentheses, '
         'overflowed numbers, blanks / plus signs in numbers), _acyc_ forms, random one-byte mutations; non-trivial = at least one heuristic / '
         'edge / external was delivered or expected, an expected error was observed, or a string case was judged by the reference parser; '
         'distinct = distinct case tuples')
@@ -659,6 +664,103 @@ def fixed_cases():
     return out
 
 
+# ---- long target names ------------------------------------------------------------------------------
+# SmodelsConvert::flushHeuristic formats `_heuristic(name,mod,bias,prio)` through a StringBuilder (63-byte inline buffer,
+# then std::string); `_edge(s,t)` and `_atom(k)` go through the same class but never exceed 30 bytes.  Only the NAME can
+# carry the text over the representation boundaries of the builder (63/64 inline, lengths >= 2^8 in its uint8 tag
+# arithmetic, 512 = 2 * 2^8, ...), so the target names are swept over those lengths.  (The text behind `_heuristic(` is
+# name + 9..31 bytes, room behind the 11-byte literal prefix is 52: every name length 225..297 has a modifier / bias /
+# priority combination with (n mod 256) <= 52.)
+LONG_LENS = list(range(60, 71)) + list(range(240, 301)) + list(range(500, 561)) + [1000]
+_FILL = b'abcdefghijklmnopqrstuvwxyz0123456789_'
+
+
+def _fill(n, k):
+    if n <= 0:
+        return b''
+    st = (k * 7) % len(_FILL)
+    return (_FILL * ((st + n) // len(_FILL) + 1))[st:st + n]
+
+
+def long_name(rnd, L, k=0):
+    """a good name (re-read whole by matchAtomArg) of exactly L >= 8 bytes; k makes names of one program distinct"""
+    shape = rnd.choice(['plain', 'quoted', 'quoted', 'nested', 'tricky', 'tuple'])
+    tag = b'%d' % (k % 10)
+    if shape == 'quoted':
+        nm = b'p' + tag + b'("' + _fill(L - 6, k) + b'")'
+    elif shape == 'nested':
+        body = (b'ab,f(c,d),' * (L // 10 + 1))[:L - 4]
+        if body.count(b'(') > body.count(b')'):
+            body = body[:body.rindex(b'(')] + b'_' * (len(body) - body.rindex(b'('))
+        body = body.replace(b'f_', b'__')
+        if body.endswith(b','):
+            body = body[:-1] + b'z'
+        nm = b'g' + tag + b'(' + body + b')'
+    elif shape == 'tricky':
+        body = (b'a,b)(\\"c \\\\' * (L // 12 + 2))[:L - 6]
+        bs = len(body) - len(body.rstrip(b'\\'))
+        if bs % 2:                              # an odd run of backslashes would escape the closing quote
+            body = body[:-1] + b'_'
+        nm = b'q' + tag + b'("' + body + b'")'
+    elif shape == 'tuple':
+        nm = b'(' + tag + b',' + _fill(L - 4, k) + b')'
+    else:
+        nm = b'n' + tag + _fill(L - 2, k)
+    if len(nm) != L or not good_name(nm) or nm.startswith(HELPER):
+        nm = (b'n' + tag + _fill(L, k))[:L]
+    return nm
+
+
+def g_long_trip(rnd, L, edges):
+    """heuristics whose target carries a name of length L; `edges`: also edge directives (their `_edge(s,t)` texts share the
+    symbol table and the formatting code with the heuristics)"""
+    na = 3
+    two = rnd.random() < 0.3                          # two steps: named in step 1, heuristic in step 2 (name from symTab_)
+    second = rnd.choice(['none', 'short', 'short', 'long'])
+    n1 = long_name(rnd, L, 1)
+    n2 = {'none': None, 'short': rnd.choice([b'b', b'p(1)', b'q("x\\"y")']),
+          'long': long_name(rnd, rnd.choice(LONG_LENS[:-1]), 2)}[second]
+
+    def heu(a):
+        return (11, a, rnd.randint(0, 5), rnd.choice(BIASES), rnd.choice(PRIOS), g_cond(rnd, na))
+    decl = [(4, 1, [1, 2, 3], []), (8, n1, [1])]
+    if n2 is not None:
+        decl.append((8, n2, [2]))
+    use = [heu(1)]
+    for _ in range(rnd.choice([0, 0, 1, 2])):          # the converter reuses ONE builder for all heuristics of a step
+        use.append(heu(rnd.choice([1, 2, 2, 3])))
+    if rnd.random() < 0.3:
+        use.append((9, rnd.randint(1, 4), rnd.randint(0, 3)))
+    if edges:
+        for _ in range(rnd.choice([1, 2, 3])):
+            use.insert(rnd.randint(0, len(use)), (12, rnd.choice(NODES), rnd.choice(NODES), g_cond(rnd, na)))
+    if two:
+        return [(1, True), (2,)] + decl + [(3,), (2,)] + use + [(3,)]
+    body = decl + use
+    if rnd.random() < 0.3:                              # heuristic before the name is given
+        body = [decl[0]] + use + decl[1:]
+    return [(1, rnd.random() < 0.1), (2,)] + body + [(3,)]
+
+
+def long_name_cases(rnd, tier):
+    out = []
+    reps = {'quick': 1, 'thorough': 8, 'search': 1}.get(tier, 1)
+    for _ in range(reps):
+        for L in LONG_LENS:
+            for edges in (False, True):
+                calls = g_long_trip(rnd, L, edges)
+                opts = rnd.choice([(1, 1, 1), (1, 1, 1), (1, 1, 0), (0, 1, 1), (0, 1, 0), (1, 0, 1)])
+                out.append((trip_case(rnd, calls, opts), {'kind': 'trip-long-names' + ('-edges' if edges else '')}))
+            # the two matchers on texts of that size (no builder involved: the reader side alone)
+            nm = long_name(rnd, L, 3)
+            s = b'_heuristic(' + nm + b',' + rnd.choice(MODS) + b',%d' % rnd.choice(BIASES)
+            s += rnd.choice([b')', b',%d)' % rnd.choice(PRIOS)])
+            out.append((str_case('heu', s), {'kind': 'string-heuristic-long'}))
+            e = b'_edge(' + long_name(rnd, L, 4) + b',' + rnd.choice([b'1', long_name(rnd, L, 5)]) + b')'
+            out.append((str_case('edge', e), {'kind': 'string-edge-long'}))
+    return out
+
+
 def str_case(kind, s):
     return [1 if kind == 'heu' else 2, len(s)] + list(s)
 
@@ -728,6 +830,7 @@ def gen(seed, tier):
     n_trip = {'quick': 1800, 'thorough': 40000, 'search': 3000}.get(tier, 1800)
     n_str = {'quick': 2500, 'thorough': 60000, 'search': 3000}.get(tier, 2500)
     out = fixed_cases()
+    out += long_name_cases(random.Random(seed * 7477 + 85), tier)
     for _ in range(n_trip):
         r = rnd.random()
         if r < 0.70:
